@@ -13,7 +13,7 @@ type DataSpec struct {
 	Period int    `json:"period"`
 }
 
-var dataClasses = []string{"text", "uniform", "nearuniform", "fib", "alpha3", "runs", "period", "tokendense", "mixed", "zeros", "sparse", "dom50", "alpha4", "pruns"}
+var dataClasses = []string{"text", "uniform", "nearuniform", "fib", "alpha3", "runs", "period", "tokendense", "mixed", "zeros", "sparse", "dom50", "alpha4", "pruns", "copies"}
 
 var words = []string{"the", "of", "and", "compression", "deflate", "window", "huffman", "stream", "a", "to", "in", "is", "that", "for", "block", "literal", "distance", "length", "code", "bits", "byte", "0123456789", "\n", ", ", ". ", "Intel", "fastgo", "golang"}
 
@@ -142,6 +142,41 @@ func (d DataSpec) Bytes() []byte {
 			}
 			if i < n {
 				b[i] = byte(r.Intn(256))
+				i++
+			}
+		}
+	case "copies":
+		// literal runs and copies of every length 3..300 from every distance 1..32768 (log-uniform),
+		// so that every length and distance code with all its extra-bit values occurs
+		for i := 0; i < n; {
+			if i < 4 || r.Intn(4) == 0 {
+				for k := 1 + r.Intn(12); k > 0 && i < n; k-- {
+					b[i] = byte(r.Intn(256))
+					i++
+				}
+				continue
+			}
+			maxd := minInt(i, 32768)
+			bits := 1 + r.Intn(16)
+			dist := 1 + r.Intn(1<<uint(bits))
+			if r.Intn(8) == 0 {
+				dist = maxd - r.Intn(3)
+			}
+			if dist > maxd {
+				dist = maxd
+			}
+			if dist < 1 {
+				dist = 1
+			}
+			l := 3 + r.Intn(20)
+			switch r.Intn(6) {
+			case 0:
+				l = 255 + r.Intn(8)
+			case 1:
+				l = 3 + r.Intn(298)
+			}
+			for k := 0; k < l && i < n; k++ {
+				b[i] = b[i-dist]
 				i++
 			}
 		}
